@@ -14,6 +14,8 @@ RES = os.path.join(ROOT, "results.tsv")
 
 NOTES = {
     "C13": "neutralised by fix 1d3fe16 (`ndpoly.values` honours strides); reported by C13 on the pre-fix tree",
+    "R4C06": "neutralised by fix 9dba7ee (positions given to `derivative` are resolved through the caller's names); caught by C06 before that fix",
+    "R6C06": "neutralised by fix 9dba7ee (a negative position is resolved to a name first); caught by C06 before that fix",
 }
 
 
